@@ -174,12 +174,17 @@ def bound_core(ops, a, b, op: str, depth: int = 0):
         return not (ops.is_subtype(x, j) and ops.is_subtype(y, j))
     if depth < 4:
         ia, ib = union_items(a), union_items(b)
+        # (the visitors call themselves with the union item first, so both orders are tried)
         for x in (ia or []):
             if fails(x, b):
                 return bound_core(ops, x, b, op, depth + 1)
+            if fails(b, x):
+                return bound_core(ops, b, x, op, depth + 1)
         for y in (ib or []):
             if fails(a, y):
                 return bound_core(ops, a, y, op, depth + 1)
+            if fails(y, a):
+                return bound_core(ops, y, a, op, depth + 1)
     return a, b
 
 
